@@ -34,29 +34,56 @@ class HarnessError(Exception):
 class Patches:
     """records attribute replacements and undoes them (stubs live only inside `with`)"""
 
+    active = []
+    _missing = object()
+
     def __init__(self):
         self.undo = []
 
     def set(self, obj, name, value):
-        missing = object()
+        missing = Patches._missing
         old = obj.__dict__.get(name, missing) if hasattr(obj, "__dict__") else getattr(obj, name, missing)
-        self.undo.append((obj, name, old, missing))
+        self.undo.append([obj, name, old, value])
         setattr(obj, name, value)
 
+    @staticmethod
+    def _put(obj, name, val):
+        if val is Patches._missing:
+            try:
+                delattr(obj, name)
+            except AttributeError:
+                pass
+        else:
+            setattr(obj, name, val)
+
     def __enter__(self):
+        Patches.active.append(self)
         return self
 
     def __exit__(self, *a):
-        for obj, name, old, missing in reversed(self.undo):
-            if old is missing:
-                try:
-                    delattr(obj, name)
-                except AttributeError:
-                    pass
-            else:
-                setattr(obj, name, old)
+        for obj, name, old, new in reversed(self.undo):
+            self._put(obj, name, old)
         self.undo = []
+        Patches.active.remove(self)
         return False
+
+
+@contextlib.contextmanager
+def unpatched():
+    """the repository code exactly as imported: every active stub is lifted for the duration (replay)"""
+    saved_ctx = symx.Ctx.cur
+    symx.Ctx.cur = None
+    acts = list(Patches.active)
+    for p in reversed(acts):
+        for obj, name, old, new in reversed(p.undo):
+            Patches._put(obj, name, old)
+    try:
+        yield
+    finally:
+        for p in acts:
+            for obj, name, old, new in p.undo:
+                Patches._put(obj, name, new)
+        symx.Ctx.cur = saved_ctx
 
 
 # ------------------------------------------------------------------------------------------------
@@ -339,7 +366,8 @@ def run_replay(spec, inputs):
     mod, fn = spec.split(":")
     f = getattr(importlib.import_module(mod), fn)
     try:
-        out = f(dict(inputs))
+        with unpatched():
+            out = f(dict(inputs))
     except symx.Unsupported as e:
         return {"ok": True, "detail": "replay error: %r" % (e,)}
     except Exception as e:
